@@ -137,7 +137,12 @@ pub fn run_c11(run: &Run) {
     // (b)
     let quick = run.quick();
     let plan: Vec<(Source, usize, bool)> = if quick {
-        vec![(Source::FamCompact(fam_a(2)), 3, false), (Source::FamCompact(fam_f(3, 1)), 3, false), (Source::FamCompact(fam_a(2)), 2, true), (Source::FamCompact(fam_f(3, 1)), 2, true)]
+        // deeper diagrams (conditions with two parents): one residue class modulo 8 of F(3,2), sequences of length <= 2
+        let mut f32 = fam_f(3, 2);
+        f32.first = run.seed % 8;
+        f32.step = 8;
+        f32.name = format!("F(3,2) class {} mod 8", run.seed % 8);
+        vec![(Source::FamCompact(fam_a(2)), 3, false), (Source::FamCompact(fam_f(3, 1)), 3, false), (Source::FamCompact(fam_a(2)), 2, true), (Source::FamCompact(fam_f(3, 1)), 2, true), (Source::FamCompact(f32.clone()), 2, false), (Source::FamCompact(f32), 1, true)]
     } else {
         vec![(Source::FamCompact(fam_a(2)), 4, false), (Source::FamCompact(fam_f(3, 1)), 3, false), (Source::FamCompact(fam_a(2)), 3, true), (Source::FamCompact(fam_f(3, 1)), 3, true), (Source::FamCompact(fam_f(3, 2)), 2, false)]
     };
